@@ -2,7 +2,7 @@
    list, prod, sumbool, sumor map to OCaml's; Z, positive, N, ascii, string stay Coq datatypes. *)
 From Coq Require Import ExtrOcamlBasic.
 From Coq Require Import String Ascii.
-From MP.Model Require Import Prelude U128 SInt Feed Vamm VammOps Token World Engine Runtime.
+From MP.Model Require Import Prelude U128 SInt Feed Vamm VammOps Token World Engine Runtime Scenario.
 
 Extraction Language OCaml.
 Extraction "model.ml"
@@ -15,4 +15,5 @@ Extraction "model.ml"
   read_position find_position read_vmap bal
   q_spot q_twap_price q_is_over_spread_limit q_input_amount q_output_amount q_calc_fee q_is_over_fluctuation_limit
   q_input_price q_output_price q_input_twap q_output_twap
-  oracle_of rf_latest rf_previous rf_twap mf_get vrun vstep.
+  oracle_of rf_latest rf_previous rf_twap mf_get vrun vstep
+  golden golden_expected.
